@@ -660,6 +660,29 @@ impl RocksDBStateMachine {
         let cf = db
             .cf_handle(STATE_MACHINE_CF)
             .ok_or_else(|| StorageError::DbError("STATE_MACHINE_CF not found".into()))?;
+        // Data and revision are read from one consistent snapshot: apply_chunk writes the
+        // applied index in the same atomic batch as the data, so the index stored in the
+        // snapshot is exactly the revision of the entries the iterator sees. Reading the
+        // in-memory counter after iterating could report a revision newer than the data.
+        // Read before the snapshot is taken: if no applied index is stored yet, nothing was
+        // applied through apply_chunk in the snapshot and this is its revision.
+        let revision_before_snapshot = self.last_applied_index.load(Ordering::SeqCst);
+        let snapshot = db.snapshot();
+        opts.set_snapshot(&snapshot);
+        let meta_cf = db
+            .cf_handle(STATE_MACHINE_META_CF)
+            .ok_or_else(|| StorageError::DbError("State machine meta CF not found".into()))?;
+        let stored_revision = match snapshot
+            .get_cf(&meta_cf, LAST_APPLIED_INDEX_KEY)
+            .map_err(|e| StorageError::DbError(e.to_string()))?
+        {
+            Some(bytes) if bytes.len() == 8 => {
+                let mut b = [0u8; 8];
+                b.copy_from_slice(&bytes);
+                Some(u64::from_be_bytes(b))
+            }
+            _ => None,
+        };
         let iter = db.iterator_cf_opt(&cf, opts, IteratorMode::From(prefix, Direction::Forward));
 
         let mut entries = Vec::new();
@@ -671,7 +694,7 @@ impl RocksDBStateMachine {
             entries.push((Bytes::copy_from_slice(&k), Bytes::copy_from_slice(&v)));
         }
 
-        let revision = self.last_applied_index.load(Ordering::SeqCst);
+        let revision = stored_revision.unwrap_or(revision_before_snapshot);
         Ok(ScanResult { entries, revision })
     }
 
